@@ -37,6 +37,7 @@ Inductive case :=
 | CParse (patch : bool) (argv : list str) (e : pres)
 | CRun (argv : list str) (calls : list (df_call * str)) (out : str) (status : option Z)
 | CExit (argv : list str) (status : Z)
+| CCall1 (argv : list str) (c : df_call)
 | CPatchRun (argv : list str) (callee : str) (args : list argval)
 | CValidate (s : str) (e : vres)
 | CUniq (v : option str) (e : list uattr)
@@ -99,6 +100,8 @@ Definition check (c : case) : bool := match c with
            end
     | _ => false
     end
+| CCall1 argv c =>
+    match diff_command_plan flags cli argv with PlanRun c1 _ _ => call_match c1 c | _ => false end
 | CExit argv st =>
     match diff_command_plan flags cli argv with
     | PlanUsage => Z.eqb st 2
@@ -457,7 +460,42 @@ def gen_argv(rng, f1, f2, force=None):
     j = rng.randint(i, len(parts))
     parts = parts[:i] + [[f1]] + parts[i:j] + [[f2]] + parts[j:]
     rng.shuffle(tail)
-    return [t for g in parts + tail for t in g]
+    intent = {"f": fm or "diff", "w": any(g[0] in ("-w", "--keep-whitespace", "--keep") for g in parts),
+              "p": any(g[0] in ("-p", "--pretty-print") for g in parts), "check": ["--check"] in parts, "F": F, "rm": rm or "fast",
+              "m": m, "ua": ua, "ia": ia, "files": [f1, f2]}
+    return [t for g in parts + tail for t in g], intent
+
+
+def expected_call(intent):
+    """what the command line asks for, written down independently of main.diff_command: every option feeds the
+    like-named Differ keyword / formatter argument"""
+    def uniq(s):
+        return [x.split("@", 1) if "@" in x else x for x in s.split(",")]
+    ua, ia = intent["ua"], intent["ia"]
+    opts = {"F": None if intent["F"] is None else float(intent["F"]), "ratio_mode": intent["rm"],
+            "fast_match": intent["m"] == "--fast-match", "best_match": intent["m"] == "--best-match",
+            "uniqueattrs": uniq("{http://www.w3.org/XML/1998/namespace}id") if ua == "absent" else [] if ua is None else uniq(ua),
+            "ignored_attrs": [] if ia in ("absent", None) else ia.split(",")}
+    fmt = {"class": {"diff": "DiffFormatter", "xml": "XMLFormatter", "old": "XmlDiffFormatter"}[intent["f"]],
+           "kwargs": {"normalize": 0 if intent["w"] else 3, "pretty_print": intent["p"]}}
+    return {"args": list(intent["files"]), "diff_options": opts, "formatter": fmt}
+
+
+def oracle_intent(intent, res):
+    if not res["calls"]:
+        return "no diff_files call"
+    c, e = res["calls"][0], expected_call(intent)
+    if c["args"] != e["args"]:
+        return "diff_files called on %r, the command line names %r" % (c["args"], e["args"])
+    got = c["kwargs"].get("diff_options")
+    for k, v in e["diff_options"].items():
+        if got is None or k not in got or got[k] != v or type(got[k]) is not type(v):
+            return "Differ option %s is %r, the command line asks for %r" % (k, None if got is None else got.get(k, "<missing>"), v)
+    if set(got) != set(e["diff_options"]):
+        return "unexpected Differ options %r" % sorted(set(got) - set(e["diff_options"]))
+    if c["kwargs"].get("formatter") != dict(e["formatter"], nargs=0):
+        return "formatter constructed as %r, the command line asks for %r" % (c["kwargs"].get("formatter"), e["formatter"])
+    return None
 
 
 def modelled(argv):
@@ -576,23 +614,24 @@ def main(run):
         for rm in ("accurate", "fast", "faster"):
             for m in (None, "--fast-match", "--best-match"):
                 argvs.append(gen_argv(rng, f1, f2, {"rm": rm, "m": m}))
-        argvs += bad_argvs(f1, f2)
-        argvs += [["-F", v, f1, f2] for v in F_BAD]
+        argvs += [(a, None) for a in bad_argvs(f1, f2)]
+        argvs += [(["-F", v, f1, f2], "reject") for v in F_BAD]
         seen_argv = set()
-        for argv in argvs:
+        for argv, intent in argvs:
             key = tuple(argv)
             if key in seen_argv:
                 continue
             seen_argv.add(key)
-            if not modelled(argv):
+            is_mod = modelled(argv)
+            if not is_mod:
                 skip("argv outside the modelled fragment")
-                continue
+            addm = add if is_mod else (lambda *a_: None)
             ns = parse_only(False, argv)
             if isinstance(ns, str):
-                add("parse", "CParse false %s %s" % (coq_argv(argv), "RUsage" if ns == "exit:2" else "RExit0"), ("parse_args", argv, ns))
+                addm("parse", "CParse false %s %s" % (coq_argv(argv), "RUsage" if ns == "exit:2" else "RExit0"), ("parse_args", argv, ns))
             else:
                 try:
-                    add("parse", "CParse false %s (RArgs %s)" % (coq_argv(argv), coq_ns(ns)), ("parse_args", argv))
+                    addm("parse", "CParse false %s (RArgs %s)" % (coq_argv(argv), coq_ns(ns)), ("parse_args", argv))
                 except ValueError as ex:
                     skip(str(ex)[:40])
             res = run_command("diff_command", argv)
@@ -613,18 +652,33 @@ def main(run):
                     except Exception as ex:  # noqa
                         w = None if type(ex).__name__ == c["raised"] else "diff_command raised %s, diff_files raises %r" % (st, ex)
                 counts["both_raise"] = counts.get("both_raise", 0) + 1
+                if c is not None:
+                    try:
+                        addm("call-raised", "CCall1 %s %s" % (coq_argv(argv), coq_call(res["calls"][0])), ("diff_command (raised)", argv))
+                    except ValueError as ex:
+                        skip(str(ex)[:40])
+                if w is None and isinstance(intent, dict):
+                    w = oracle_intent(intent, res)
                 if w:
                     viols.append({"what": w, "replay": replay_of(argv)})
                 continue
+            if intent == "reject" and st != "exit:2":
+                viols.append({"what": "-F %r must be rejected (not a number in (0, 1]) but the command returned %r" % (argv[1], st),
+                              "replay": replay_of(argv)})
+            if isinstance(intent, dict):
+                w = "the command line was rejected: %s" % st if isinstance(st, str) and st.startswith("exit:") else oracle_intent(intent, res)
+                counts["intent"] = counts.get("intent", 0) + 1
+                if w:
+                    viols.append({"what": w, "replay": dict(replay_of(argv), intent=dict(intent, files=[os.path.basename(x) for x in intent["files"]]))})
             if isinstance(st, str):
                 code = int(st.split(":")[1])
-                add("exit", "CExit %s (%d)%%Z" % (coq_argv(argv), code), ("exit", argv, st))
+                addm("exit", "CExit %s (%d)%%Z" % (coq_argv(argv), code), ("exit", argv, st))
                 if code == 2 and (res["stdout"] or res["calls"]):
                     viols.append({"what": "usage error but output/calls: %r" % res["stdout"][:80], "replay": replay_of(argv)})
                 continue
             try:
                 calls = coq_list(["(%s, %s)" % (coq_call(c), coq_str(str(c["result"]))) for c in res["calls"]])
-                add("run", "CRun %s %s %s %s" % (coq_argv(argv), calls, coq_str(res["stdout"]),
+                addm("run", "CRun %s %s %s %s" % (coq_argv(argv), calls, coq_str(res["stdout"]),
                                                   "None" if st is None else "(Some (%d)%%Z)" % st), ("diff_command", argv, st))
             except ValueError as ex:
                 skip(str(ex)[:40])
@@ -731,6 +785,10 @@ def main(run):
         "lxml parsing from names/streams/bytes/str, file encodings, print: exercised by the oracle, not modelled",
         "validate_F on decimal literals with at most 15 fractional digits (float comparisons replaced by exact ones)",
         "translator/xl_main.py reads main.py correctly (its tables are executed against the implementation on every run)"]
+    run.level = "partial proof"
+    run.notes.append("partial: argparse, lxml's parse functions, file/stream/bytes/str decoding and print are primitives of the model (validated by the "
+                     "correspondence on every run); C15_check assumes that DiffFormatter renders as XV.TextFormat.format (C02's model) and the named "
+                     "hypothesis old_formatter_nonempty; 'documents differ iff the script is non-empty' is C03's theorem")
     lib.conclude(run, ok, pinfo, corr, viols, None)
 
 
@@ -747,6 +805,12 @@ def replay(run, path):
             if isinstance(res["status"], str):
                 print("status:", res["status"], res["stderr"][-300:])
                 return 1 if res["status"].startswith("exc:") else 0
+            if d.get("intent"):
+                it = dict(d["intent"], files=[os.path.join(tmp, x) for x in d["intent"]["files"]])
+                w = oracle_intent(it, res)
+                if w:
+                    print(w)
+                    return 1
             if k == "entrypoints":
                 c = res["calls"][0]
                 w = oracle_entrypoints(c["args"][0], c["args"][1], c["kwargs"]["diff_options"], c["kwargs"]["formatter"])
